@@ -8,7 +8,43 @@ use crate::wire::marshal::MarshalContext;
 use crate::wire::util::*;
 
 pub fn marshal_param(p: &params::Param, ctx: &mut MarshalContext) -> Result<(), MarshalError> {
+    check_param_shape(p, 0)?;
     marshal_param_at_depth(p, ctx, 0)
+}
+
+/// A struct without fields has no signature (`Param::sig()` panics on it) and no encoding, so a param that contains
+/// one anywhere is refused before anything is written. Containers nested deeper than the protocol allows are
+/// refused here as well, which also bounds this walk.
+fn check_param_shape(p: &params::Param, depth: usize) -> Result<(), MarshalError> {
+    match p {
+        params::Param::Base(_) => Ok(()),
+        params::Param::Container(c) => check_container_shape(c, depth),
+    }
+}
+
+fn check_container_shape(c: &params::Container, depth: usize) -> Result<(), MarshalError> {
+    if depth >= crate::wire::MAX_NESTING_DEPTH {
+        return Err(MarshalError::NestingTooDeep);
+    }
+    let depth = depth + 1;
+    let check_all = |params: &[params::Param]| params.iter().try_for_each(|p| check_param_shape(p, depth));
+    match c {
+        params::Container::Array(arr) => check_all(&arr.values),
+        params::Container::ArrayRef(arr) => check_all(arr.values),
+        params::Container::Struct(params) if params.is_empty() => Err(empty_struct()),
+        params::Container::StructRef(params) if params.is_empty() => Err(empty_struct()),
+        params::Container::Struct(params) => check_all(params),
+        params::Container::StructRef(params) => check_all(params),
+        params::Container::Dict(dict) => dict.map.values().try_for_each(|p| check_param_shape(p, depth)),
+        params::Container::DictRef(dict) => dict.map.values().try_for_each(|p| check_param_shape(p, depth)),
+        params::Container::Variant(variant) => check_param_shape(&variant.value, depth),
+    }
+}
+
+fn empty_struct() -> MarshalError {
+    MarshalError::Validation(params::validation::Error::InvalidSignature(
+        signature::Error::EmptyStruct,
+    ))
 }
 
 /// `depth` is the number of containers this param is nested in
@@ -99,6 +135,7 @@ pub fn marshal_container_param(
     p: &params::Container,
     ctx: &mut MarshalContext,
 ) -> Result<(), MarshalError> {
+    check_container_shape(p, 0)?;
     marshal_container_param_at_depth(p, ctx, 0)
 }
 
